@@ -1144,7 +1144,7 @@ Qed.
 Lemma eps_pairs_err h epoch : forall ps seen acc e, eps_pairs h epoch ps seen acc = Err e -> e = EKey.
 Proof.
   induction ps as [|[a b] rest IH]; intros seen acc e H; simpl in H; [discriminate|].
-  set (c1 := Z.min a b) in *. set (c2 := Z.max a b) in *.
+  set (c1 := if str_leb a b then a else b) in *. set (c2 := if str_leb a b then b else a) in *.
   destruct (mem_pair (c1, c2) seen); [eauto|].
   destruct (lookup c1 (h_results h)) as [row1|]; [|inv H; reflexivity].
   destruct (lookup c2 (h_results h)) as [row2|]; [|inv H; reflexivity].
